@@ -69,6 +69,9 @@ pub struct World {
     /// invocation context of user-facing git commands: 0 repository root, 1 a
     /// sub-directory, 2 outside with -C <abs>, 3 outside with chained -C
     pub context: u8,
+    /// report agent edits through the `claude` preset (transcript re-fetched from a
+    /// JSONL side file) instead of `agent-v1` (transcript inline)
+    pub claude_mode: bool,
 }
 
 #[derive(Debug, Clone, Default)]
@@ -101,6 +104,7 @@ impl World {
             ai_checkpoints: 0,
             last_checkpoint: None,
             context: 0,
+            claude_mode: false,
         };
         for i in 0..4 {
             let tool = format!("tool{}", i);
@@ -263,7 +267,52 @@ impl World {
         })
     }
 
+    pub fn set_claude_mode(&mut self) {
+        self.claude_mode = true;
+        for (i, s) in self.sessions.iter_mut().enumerate() {
+            s.tool = "claude".into();
+            s.conv = format!("0000000{}-aaaa-4bbb-8ccc-dddddddddddd", i);
+            s.hash = notes::session_hash(&s.tool, &s.conv);
+        }
+    }
+
+    fn claude_transcript_file(&mut self, sess: usize) -> PathBuf {
+        let dir = self.sb.root.join("claude-projects");
+        let _ = std::fs::create_dir_all(&dir);
+        let p = dir.join(format!("{}.jsonl", self.sessions[sess].conv));
+        let t = self.transcript(sess);
+        let mut out = String::new();
+        for m in t.get("messages").and_then(|m| m.as_array()).cloned().unwrap_or_default() {
+            let ty = m.get("type").and_then(|x| x.as_str()).unwrap_or("");
+            let text = m.get("text").and_then(|x| x.as_str()).unwrap_or("");
+            let ts = m.get("timestamp").cloned().unwrap_or(json!("2024-01-01T00:00:00Z"));
+            let line = match ty {
+                "user" => json!({"type":"user","timestamp":ts,"message":{"role":"user","content":text}}),
+                "assistant" => json!({"type":"assistant","timestamp":ts,"message":{"model":"claude-test","content":[{"type":"text","text":text}]}}),
+                "thinking" | "plan" => json!({"type":"assistant","timestamp":ts,"message":{"model":"claude-test","content":[{"type":"thinking","thinking":text}]}}),
+                _ => json!({"type":"assistant","timestamp":ts,"message":{"model":"claude-test","content":[{"type":"tool_use","name":m.get("name").cloned().unwrap_or(json!("Bash")),"input":m.get("input").cloned().unwrap_or(json!({}))}]}}),
+            };
+            out.push_str(&line.to_string());
+            out.push('\n');
+        }
+        let _ = std::fs::write(&p, out);
+        p
+    }
+
     pub fn checkpoint_human(&mut self, will_edit: &[&str]) -> Out {
+        if self.claude_mode {
+            let tp = self.claude_transcript_file(0);
+            let fp = will_edit.first().map(|f| self.repo.join(f).to_string_lossy().into_owned()).unwrap_or_default();
+            let payload = json!({
+                "hook_event_name":"PreToolUse",
+                "transcript_path": tp.to_string_lossy(),
+                "cwd": self.repo.to_string_lossy(),
+                "tool_input": {"file_path": fp},
+            });
+            let s = payload.to_string();
+            self.last_checkpoint = None;
+            return self.gai(&["checkpoint", "claude", "--hook-input", &s]);
+        }
         let payload = json!({
             "type":"human",
             "repo_working_dir": self.repo.to_string_lossy(),
@@ -281,6 +330,20 @@ impl World {
 
     pub fn checkpoint_ai(&mut self, sess: usize, edited: &[&str]) -> Out {
         let sess = sess % self.sessions.len();
+        if self.claude_mode {
+            let tp = self.claude_transcript_file(sess);
+            let fp = edited.first().map(|f| self.repo.join(f).to_string_lossy().into_owned()).unwrap_or_default();
+            let payload = json!({
+                "hook_event_name":"PostToolUse",
+                "transcript_path": tp.to_string_lossy(),
+                "cwd": self.repo.to_string_lossy(),
+                "tool_input": {"file_path": fp},
+            });
+            let s = payload.to_string();
+            self.ai_checkpoints += 1;
+            self.last_checkpoint = None;
+            return self.gai(&["checkpoint", "claude", "--hook-input", &s]);
+        }
         let s = self.sessions[sess].clone();
         let payload = json!({
             "type":"ai_agent",
